@@ -94,6 +94,7 @@ package hashgraph
 //@   modifies G_miss(s)
 //@   ensures[hit]  ret1 == nil ==> ret0 != nil && __in(hash, G_events(s)) && ret0 == G_events(s)[hash] && HexOf(ret0) == hash && __in(CreatorOf(ret0), G_rep(s)) && len(ret0.Body.Parents) == 2
 //@   ensures[sig]  ret1 == nil ==> keys.SigWellFormed(ret0.Signature)
+//@   ensures[coords] ret1 == nil ==> ret0.lastAncestors != nil && ret0.firstDescendants != nil
 //@   ensures[missflag] (ret1 != nil && __in(hash, G_events(s)) ==> G_miss(s)) && (old(G_miss(s)) ==> G_miss(s))
 //@   ensures[miss] !__in(hash, G_events(s)) ==> ret1 != nil
 //@   ensures[err]  ret1 != nil ==> ret0 == nil
@@ -128,6 +129,7 @@ package hashgraph
 // Event admission (C07)
 
 //@ func (h *Hashgraph) checkSelfParent(event *Event) error
+//@   safety on
 //@   requires h != nil && event != nil && len(event.Body.Parents) == 2
 //@   modifies G_miss(h.Store)
 //@   ensures[creator] ret0 == nil ==> __in(CreatorOf(event), G_rep(h.Store))
@@ -137,12 +139,14 @@ package hashgraph
 //@   ensures[index]   ret0 == nil ==> event.Body.Index == G_lastIdx(h.Store)[CreatorOf(event)] + 1
 
 //@ func (h *Hashgraph) checkOtherParent(event *Event) error
+//@   safety on
 //@   requires h != nil && event != nil && len(event.Body.Parents) == 2
 //@   modifies G_miss(h.Store)
 //@   ensures[present] ret0 == nil && event.Body.Parents[1] != "" ==> __in(event.Body.Parents[1], G_events(h.Store))
 //@   ensures[miss]    old(G_miss(h.Store)) ==> G_miss(h.Store)
 
 //@ func (c CoordinatesMap) Copy() CoordinatesMap
+//@   safety on
 //@   modifies nothing
 //@   ensures[fresh] __fresh(ret0)
 //@   ensures[copy]  forall k string :: __in(k, ret0) == __in(k, c) && ret0[k] == c[k]
@@ -153,6 +157,7 @@ package hashgraph
 //@ ghost func (h *Hashgraph) viewOf() Store { return h.Store }
 
 //@ func (h *Hashgraph) initEventCoordinates(event *Event) error
+//@   safety on
 //@   requires h != nil && event != nil && len(event.Body.Parents) == 2
 //@   modifies event.lastAncestors, event.firstDescendants, G_miss(h.Store)
 //@   ensures[ok]   ret0 == nil && (old(G_miss(h.Store)) ==> G_miss(h.Store))
@@ -182,6 +187,7 @@ package hashgraph
 //@ ghost func SelfAncRule(ex *Event, ey *Event) bool { return CreatorOf(ex) == CreatorOf(ey) && ex.Body.Index >= ey.Body.Index }
 
 //@ func (h *Hashgraph) _ancestor(x, y string) (bool, error)
+//@   safety on
 //@   requires h != nil
 //@   modifies G_miss(h.Store)
 //@   ensures[miss]  old(G_miss(h.Store)) ==> G_miss(h.Store)
@@ -190,6 +196,7 @@ package hashgraph
 //@   ensures[err]  ret1 != nil ==> !ret0
 
 //@ func (h *Hashgraph) _selfAncestor(x, y string) (bool, error)
+//@   safety on
 //@   requires h != nil
 //@   modifies G_miss(h.Store)
 //@   ensures[miss]  old(G_miss(h.Store)) ==> G_miss(h.Store)
@@ -227,6 +234,7 @@ package hashgraph
 //@ ghost func SSRule(ex *Event, ey *Event, ps *peers.PeerSet) bool { return 3*__count(ps.ByPubKey, func(p string) bool { return SSCond(ex, ey, p) }) > 2*len(ps.ByPubKey) }
 
 //@ func (h *Hashgraph) _stronglySee(x, y string, peers *peers.PeerSet) (bool, error)
+//@   safety on
 //@   requires h != nil && peers != nil && peers.WF()
 //@   modifies G_miss(h.Store)
 //@   ensures[miss]  old(G_miss(h.Store)) ==> G_miss(h.Store)
@@ -257,6 +265,7 @@ package hashgraph
 //@ ghost func (h *Hashgraph) roundCacheOK() bool { return h.roundCache != nil && (forall x string :: __in(interface{}(x), common.G_m(h.roundCache)) ==> common.G_m(h.roundCache)[interface{}(x)] == interface{}(RoundV(h, x))) }
 
 //@ func (h *Hashgraph) _round(x string) (int, error)
+//@   safety on
 //@   requires h != nil && h.memoSep() && h.roundCacheOK() && h.ssCacheOK()
 //@   modifies common.G_m(h.roundCache), common.G_m(h.stronglySeeCache), G_miss(h.Store)
 //@   ensures[miss]  old(G_miss(h.Store)) ==> G_miss(h.Store)
@@ -282,6 +291,7 @@ package hashgraph
 //@ ghost func (h *Hashgraph) witCacheOK() bool { return h.witnessCache != nil && (forall x string :: __in(interface{}(x), common.G_m(h.witnessCache)) ==> common.G_m(h.witnessCache)[interface{}(x)] == interface{}(WitV(h, x))) }
 
 //@ func (h *Hashgraph) _witness(x string) (bool, error)
+//@   safety on
 //@   requires h != nil && h.memoSep() && h.roundCacheOK() && h.ssCacheOK()
 //@   modifies common.G_m(h.roundCache), common.G_m(h.stronglySeeCache), G_miss(h.Store)
 //@   ensures[miss]  old(G_miss(h.Store)) ==> G_miss(h.Store)
@@ -310,6 +320,7 @@ package hashgraph
 //@ ghost func (h *Hashgraph) MemoOK() bool { return h.memoSep() && h.ancCacheOK() && h.selfAncCacheOK() && h.ssCacheOK() && h.roundCacheOK() && h.witCacheOK() && h.ltCacheOK() }
 
 //@ func (h *Hashgraph) _lamportTimestamp(x string) (int, error)
+//@   safety on
 //@   requires h != nil && h.ltCacheOK()
 //@   modifies common.G_m(h.timestampCache), G_miss(h.Store)
 //@   ensures[rule]   ret1 == nil && !G_miss(h.Store) ==> __in(x, G_events(h.Store)) && ret0 == LTRule(h, G_events(h.Store)[x])
@@ -328,6 +339,7 @@ package hashgraph
 //@   ensures[miss]  old(G_miss(h.Store)) ==> G_miss(h.Store)
 
 //@ func (h *Hashgraph) updateAncestorFirstDescendant(event *Event) error
+//@   safety on
 //@   requires h != nil && event != nil && event.lastAncestors != nil && h.MemoOK()
 //@   modifies G_events(h.Store), G_fault(h.Store), G_miss(h.Store), anymap CoordinatesMap, common.G_m(h.witnessCache), common.G_m(h.roundCache), common.G_m(h.stronglySeeCache)
 //@   ensures[view]  __eq(G_events(h.Store), old(G_events(h.Store))) && __eq(G_last(h.Store), old(G_last(h.Store))) && __eq(G_lastIdx(h.Store), old(G_lastIdx(h.Store)))
@@ -341,6 +353,7 @@ package hashgraph
 //@   loop 2 invariant[memo] h.MemoOK()
 
 //@ func (h *Hashgraph) InsertEvent(event *Event, setWireInfo bool) error
+//@   safety on
 //@   requires h != nil && event != nil && len(event.Body.Parents) == 2 && h.PendingSignatures != nil && h.PendingSignatures.items != nil && h.MemoOK()
 //@   ensures[memo]                 h.MemoOK()
 //@   ensures[signed]               ret0 == nil ==> EventSigOK(event)
@@ -514,12 +527,14 @@ package hashgraph
 // Round information (C01, C02, C18)
 
 //@ func (r *RoundInfo) FamousWitnesses() []string
+//@   safety on
 //@   requires r != nil
 //@   modifies nothing
 //@   ensures[enum] __enum(ret0, r.CreatedEvents, func(x string) bool { return r.CreatedEvents[x].Witness && r.CreatedEvents[x].Famous == common.True })
 //@   loop 1 invariant[enum] !(res == nil) && __enum(res, __visset(), func(x string) bool { return __in(x, r.CreatedEvents) && r.CreatedEvents[x].Witness && r.CreatedEvents[x].Famous == common.True })
 
 //@ func (r *RoundInfo) Witnesses() []string
+//@   safety on
 //@   requires r != nil
 //@   modifies nothing
 //@   ensures[enum] __enum(ret0, r.CreatedEvents, func(x string) bool { return r.CreatedEvents[x].Witness })
@@ -533,6 +548,7 @@ package hashgraph
 //@ ghost func UndecidedWit(r *RoundInfo, x string) bool { return __in(x, r.CreatedEvents) && r.CreatedEvents[x].Witness && r.CreatedEvents[x].Famous == common.Undefined }
 
 //@ func (r *RoundInfo) WitnessesDecided(peerSet *peers.PeerSet) bool
+//@   safety on
 //@   requires r != nil && peerSet != nil && peerSet.WF()
 //@   modifies r.decided
 //@   ensures[sticky] old(r.decided) ==> ret0
@@ -541,17 +557,20 @@ package hashgraph
 //@   loop 1 invariant[cnt] c == __count(__visset(), func(x string) bool { return DecidedWit(r, x) }) && (forall x string :: __vis(x) ==> !UndecidedWit(r, x)) && r.decided == old(r.decided)
 
 //@ func (r *RoundInfo) IsDecided(witness string) bool
+//@   safety on
 //@   requires r != nil
 //@   modifies nothing
 //@   ensures[rule] ret0 == DecidedWit(r, witness)
 
 //@ func (r *RoundInfo) SetFame(x string, f bool)
+//@   safety on
 //@   requires r != nil && r.CreatedEvents != nil
 //@   modifies r.CreatedEvents[*]
 //@   ensures[set]    __in(x, r.CreatedEvents) && r.CreatedEvents[x].Famous == __ite(f, common.True, common.False) && r.CreatedEvents[x].Witness == __ite(old(__in(x, r.CreatedEvents)), old(r.CreatedEvents[x].Witness), true)
 //@   ensures[others] forall y string :: y != x ==> __in(y, r.CreatedEvents) == old(__in(y, r.CreatedEvents)) && r.CreatedEvents[y] == old(r.CreatedEvents[y])
 
 //@ func (r *RoundInfo) AddCreatedEvent(x string, witness bool)
+//@   safety on
 //@   requires r != nil && r.CreatedEvents != nil
 //@   modifies r.CreatedEvents[*]
 //@   ensures[kept]   old(__in(x, r.CreatedEvents)) ==> r.CreatedEvents[x] == old(r.CreatedEvents[x])
@@ -559,6 +578,7 @@ package hashgraph
 //@   ensures[others] forall y string :: y != x ==> __in(y, r.CreatedEvents) == old(__in(y, r.CreatedEvents)) && r.CreatedEvents[y] == old(r.CreatedEvents[y])
 
 //@ func (r *RoundInfo) AddReceivedEvent(x string)
+//@   safety on
 //@   requires r != nil
 //@   modifies r.ReceivedEvents
 //@   ensures[appended] len(r.ReceivedEvents) == old(len(r.ReceivedEvents)) + 1 && r.ReceivedEvents[len(r.ReceivedEvents)-1] == x && (forall k int :: 0 <= k && k < old(len(r.ReceivedEvents)) ==> r.ReceivedEvents[k] == old(r.ReceivedEvents)[k])
@@ -615,10 +635,11 @@ package hashgraph
 //@   ensures[memo]  h.MemoOK()
 
 //@ func (h *Hashgraph) createFrameEvent(x string) (*FrameEvent, error)
+//@   safety on
 //@   requires h != nil && h.MemoOK()
 //@   modifies common.G_m(h.witnessCache), common.G_m(h.roundCache), common.G_m(h.stronglySeeCache), common.G_m(h.timestampCache), G_miss(h.Store)
 //@   ensures[memo] h.MemoOK()
-//@   ensures[core] ret1 == nil ==> ret0 != nil && __fresh(ret0) && ret0.Core != nil && ret0.Core == G_events(h.Store)[x] && __in(x, G_events(h.Store)) && SigWF(ret0.Core.Signature)
+//@   ensures[core] ret1 == nil ==> ret0 != nil && __fresh(ret0) && ret0.Core != nil && ret0.Core == G_events(h.Store)[x] && __in(x, G_events(h.Store)) && SigWF(ret0.Core.Signature) && len(ret0.Core.Body.Parents) == 2
 //@   ensures[values] ret1 == nil ==> ret0.Round == RoundV(h, x) && (!G_miss(h.Store) ==> ret0.LamportTimestamp == LTV(h, x)) && __in(x, G_rounds(h.Store)[RoundV(h, x)].CreatedEvents) && ret0.Witness == G_rounds(h.Store)[RoundV(h, x)].CreatedEvents[x].Witness
 
 // Consensus order inside a frame (C01, C03, C04): Lamport timestamp, ties by the numeric value of the first
@@ -642,6 +663,7 @@ package hashgraph
 //@ ghost func FW(r *RoundInfo, x string) bool { return __in(x, r.CreatedEvents) && r.CreatedEvents[x].Witness && r.CreatedEvents[x].Famous == common.True }
 
 //@ func (h *Hashgraph) GetFrame(roundReceived int) (*Frame, error)
+//@   safety on
 //@   requires h != nil && h.MemoOK()
 //@   modifies common.G_m(h.witnessCache), common.G_m(h.roundCache), common.G_m(h.stronglySeeCache), common.G_m(h.timestampCache), G_frames(h.Store), G_fault(h.Store), G_miss(h.Store)
 //@   ensures[memo]      h.MemoOK()
@@ -660,8 +682,8 @@ package hashgraph
 //@   loop 2 invariant[memo] h.MemoOK()
 //@   loop 3 invariant[memo] h.MemoOK()
 //@   loop 4 invariant[memo] h.MemoOK()
-//@   loop 1 invariant[cores] !(events == nil) && len(events) == __idx() && (forall k int :: 0 <= k && k < len(events) ==> events[k] != nil && events[k].Core != nil && SigWF(events[k].Core.Signature) && events[k].Core == G_events(h.Store)[round.ReceivedEvents[k]])
-//@   loop 2 invariant[cores] forall k int :: 0 <= k && k < len(events) ==> events[k] != nil && events[k].Core != nil
+//@   loop 1 invariant[cores] !(events == nil) && len(events) == __idx() && (forall k int :: 0 <= k && k < len(events) ==> events[k] != nil && events[k].Core != nil && SigWF(events[k].Core.Signature) && len(events[k].Core.Body.Parents) == 2 && events[k].Core == G_events(h.Store)[round.ReceivedEvents[k]])
+//@   loop 2 invariant[cores] forall k int :: 0 <= k && k < len(events) ==> events[k] != nil && events[k].Core != nil && len(events[k].Core.Body.Parents) == 2
 //@   loop 4 invariant[ts] !(timestamps == nil) && len(timestamps) == __idx() && (forall k int :: 0 <= k && k < __idx() ==> __in(__ranged([]string(nil))[k], G_events(h.Store)) && timestamps[k] == G_events(h.Store)[__ranged([]string(nil))[k]].Body.Timestamp)
 
 // ------------------------------------------------------------------------------------------------
@@ -766,11 +788,13 @@ package hashgraph
 //@ ghost func (c *PendingRoundsCache) wf() bool { return c.items != nil && len(c.sortedItems) == len(c.items) && (forall i int, j int :: 0 <= i && i < j && j < len(c.sortedItems) ==> c.sortedItems[i].Index < c.sortedItems[j].Index) && (forall k int :: 0 <= k && k < len(c.sortedItems) ==> c.sortedItems[k] != nil && __allocated(c.sortedItems[k]) && __in(c.sortedItems[k].Index, c.items) && c.items[c.sortedItems[k].Index] == c.sortedItems[k]) && (forall r int :: __in(r, c.items) ==> c.items[r] != nil && __allocated(c.items[r]) && c.items[r].Index == r && (exists k int :: 0 <= k && k < len(c.sortedItems) && c.sortedItems[k] == c.items[r])) }
 
 //@ func (c *PendingRoundsCache) Queued(round int) bool
+//@   safety on
 //@   requires c != nil && c.items != nil
 //@   modifies nothing
 //@   ensures[def] ret0 == __in(round, c.items)
 
 //@ func (c *PendingRoundsCache) Set(pendingRound *PendingRound)
+//@   safety on
 //@   requires c != nil && c.wf() && pendingRound != nil && !__in(pendingRound.Index, c.items)
 //@   modifies c.items[*], c.sortedItems
 //@   ensures[map]   forall r int :: __in(r, c.items) == (old(__in(r, c.items)) || r == pendingRound.Index) && c.items[r] == __ite(r == pendingRound.Index, pendingRound, old(c.items[r]))
@@ -780,6 +804,7 @@ package hashgraph
 //@   ensures[onto]  forall r int :: __in(r, c.items) ==> (exists k int :: 0 <= k && k < len(c.sortedItems) && c.sortedItems[k] == c.items[r])
 
 //@ func (c *PendingRoundsCache) Update(decidedRounds []int)
+//@   safety on
 //@   requires c != nil && c.wf()
 //@   modifies any PendingRound.Decided
 //@   ensures[latch]  forall p *PendingRound :: old(p.Decided) ==> p.Decided
@@ -790,6 +815,7 @@ package hashgraph
 //@   loop 1 invariant[only]   forall p *PendingRound :: p.Decided && !old(p.Decided) ==> (exists k int :: 0 <= k && k < __idx() && __in(decidedRounds[k], c.items) && c.items[decidedRounds[k]] == p)
 
 //@ func (c *PendingRoundsCache) Clean(processedRounds []int)
+//@   safety on
 //@   requires c != nil && c.wf()
 //@   modifies c.items[*], c.sortedItems
 //@   ensures[removed] forall k int :: 0 <= k && k < len(processedRounds) ==> !__in(processedRounds[k], c.items)
@@ -816,6 +842,7 @@ package hashgraph
 //@   modifies G_fault(s)
 
 //@ func (h *Hashgraph) ProcessDecidedRounds() error
+//@   safety on
 //@   requires h != nil && h.PendingRounds != nil && h.PendingRounds.wf() && h.MemoOK()
 //@   ensures[memo]  h.MemoOK()
 //@   ensures[queue] h.PendingRounds == old(h.PendingRounds) && h.PendingRounds.wf() && h.PendingSignatures == old(h.PendingSignatures)
@@ -834,6 +861,7 @@ package hashgraph
 // Fame decision (C01)
 
 //@ func (c *PendingRoundsCache) GetOrderedPendingRounds() OrderedPendingRounds
+//@   safety on
 //@   requires c != nil
 //@   modifies nothing
 //@   ensures[def] __eq(ret0, c.sortedItems)
@@ -844,6 +872,7 @@ package hashgraph
 // round j's validator count, and to that side's value (yes on ties). A round enters decidedRounds only when
 // WitnessesDecided holds for it.
 //@ func (h *Hashgraph) DecideFame() error
+//@   safety on
 //@   requires h != nil && h.PendingRounds != nil && h.PendingRounds.wf() && h.MemoOK()
 //@   ensures[memo]  h.MemoOK()
 //@   ensures[queue] h.PendingRounds == old(h.PendingRounds) && h.PendingRounds.wf()
@@ -875,6 +904,7 @@ package hashgraph
 // The consensus pipeline runs in this order after a successful insertion, each stage only after the previous
 // one succeeded; a rejected event runs none of them.
 //@ func (h *Hashgraph) InsertEventAndRunConsensus(event *Event, setWireInfo bool) error
+//@   safety on
 //@   requires h != nil && event != nil && len(event.Body.Parents) == 2 && h.PendingSignatures != nil && h.PendingSignatures.items != nil && h.MemoOK() && h.PendingRounds != nil && h.PendingRounds.wf()
 //@   ensures[memo] h.MemoOK()
 //@   ensures[ready] h.ConsensusReady()
@@ -888,6 +918,7 @@ package hashgraph
 // predicates for that event and nothing else; a round is (re)queued only if it is not queued, not decided and above
 // the lower bound.
 //@ func (h *Hashgraph) DivideRounds() error
+//@   safety on
 //@   requires h != nil && h.MemoOK() && h.PendingRounds != nil && h.PendingRounds.wf()
 //@   ensures[memo]  h.MemoOK()
 //@   ensures[queue] h.PendingRounds == old(h.PendingRounds) && h.PendingRounds.wf() && h.PendingSignatures == old(h.PendingSignatures)
@@ -902,6 +933,7 @@ package hashgraph
 // every famous witness recorded for round i sees x, and those famous witnesses number strictly more than two thirds of
 // round i's validator set; every round between x's round and i was examined first (ascending order).
 //@ func (h *Hashgraph) DecideRoundReceived() error
+//@   safety on
 //@   requires h != nil && h.MemoOK()
 //@   ensures[memo]  h.MemoOK()
 //@   ensures[queue] h.PendingRounds == old(h.PendingRounds) && (old(h.PendingRounds) != nil && old(h.PendingRounds.wf()) ==> h.PendingRounds.wf())
